@@ -1,7 +1,7 @@
 // C07 (homology bookkeeping) — witness search / replay for the Verus unit `hcalc` on the real crate:
 // chain complexes Z^2 --d1--> Z^3 --d2--> Z^1 with d2 = k (u x v)^T (so d2 d1 = 0), small entries.
 use super::src::*;
-use crate::{ob, reach};
+use crate::{ob, pre, reach};
 use yui_homology::utils::HomologyCalc;
 use yui_matrix::sparse::SpMat;
 use yui_matrix::MatTrait;
@@ -41,4 +41,43 @@ pub fn hcalc_small(s: &mut Src) -> R {
     Ok(())
 }
 
-crate::harness_table!(HCALC: hcalc_small);
+
+// C12 (Schur complement) — witness search / replay for the Verus unit `schur` on the real crate:
+// 4x4 matrices over F_5 whose leading 2x2 block is lower (or upper) triangular with unit diagonal entries.
+pub fn hcalc_schur_small(s: &mut Src) -> R {
+    use yui::FF;
+    use yui_matrix::sparse::schur::Schur;
+    use yui_matrix::sparse::triang::TriangularType;
+    use yui_matrix::dense::Mat;
+    type F = FF<5>;
+    let mut e = [0i64; 16];
+    for k in 0..16 { e[k] = s.small(0, 4); }
+    let upper = s.bool();
+    pre!(e[0] != 0 && e[5] != 0);
+    if upper { e[4] = 0; } else { e[1] = 0; }
+    reach!();
+    let f = |x: i64| F::new(x as i32);
+    let mm = SpMat::from_dense_data((4, 4), e.iter().map(|&x| f(x)).collect::<Vec<_>>());
+    let t = if upper { TriangularType::Upper } else { TriangularType::Lower };
+    let sch = Schur::from_partial_triangular(t, &mm, 2, true);
+    // independent value of S = D - C A^-1 B over F_5 (2x2 inverse by the adjugate)
+    let (a, b, c, d) = ([[f(e[0]), f(e[1])], [f(e[4]), f(e[5])]], [[f(e[2]), f(e[3])], [f(e[6]), f(e[7])]], [[f(e[8]), f(e[9])], [f(e[12]), f(e[13])]], [[f(e[10]), f(e[11])], [f(e[14]), f(e[15])]]);
+    let det = a[0][0] * a[1][1] - a[0][1] * a[1][0];
+    let di = F::new(1) / det;
+    let ai = [[a[1][1] * di, -a[0][1] * di], [-a[1][0] * di, a[0][0] * di]];
+    let mul = |x: &[[F; 2]; 2], y: &[[F; 2]; 2]| [[x[0][0] * y[0][0] + x[0][1] * y[1][0], x[0][0] * y[0][1] + x[0][1] * y[1][1]], [x[1][0] * y[0][0] + x[1][1] * y[1][0], x[1][0] * y[0][1] + x[1][1] * y[1][1]]];
+    let cab = mul(&c, &mul(&ai, &b));
+    let want = Mat::from_data((2, 2), [d[0][0] - cab[0][0], d[0][1] - cab[0][1], d[1][0] - cab[1][0], d[1][1] - cab[1][1]]);
+    let sm = sch.complement().clone().into_dense();
+    ob!(sm == want, "Schur::S==D-C.Ainv.B");
+    let (ts, tt) = (sch.trans_src().unwrap(), sch.trans_tgt().unwrap());
+    let (fs, bs, ft, bt) = (ts.forward_mat(), ts.backward_mat(), tt.forward_mat(), tt.backward_mat());
+    ob!((&(&ft * &mm) * &bs).into_dense() == sm, "Schur::Ftgt.M.Bsrc==S");
+    ob!((&fs * &bs).into_dense() == Mat::id(2) && (&ft * &bt).into_dense() == Mat::id(2), "Schur::F.B==I");
+    let z = F::new(0);
+    ob!((&ft * &mm).into_dense() == Mat::from_data((2, 4), [z, z, sm[(0, 0)], sm[(0, 1)], z, z, sm[(1, 0)], sm[(1, 1)]]), "Schur::Ftgt.M==[0|S]");
+    ob!((&mm * &bs).into_dense() == Mat::from_data((4, 2), [z, z, z, z, sm[(0, 0)], sm[(0, 1)], sm[(1, 0)], sm[(1, 1)]]), "Schur::M.Bsrc==[0;S]");
+    Ok(())
+}
+
+crate::harness_table!(HCALC: hcalc_small, hcalc_schur_small);
